@@ -87,7 +87,8 @@ Resolve ==
               askedP == ~sameP /\ cNow # 0
               gc1 == IF askedP THEN [grantC EXCEPT ![lp1.pv][cNow] = Min(now + CTTL, gp1[lp1.pv])] ELSE grantC
           IN IF lc1.pv = 0
-             THEN [lp |-> lp1, lc |-> None, an |-> None, ng |-> now + NegTTL, rep |-> <<0, 0>>, gp |-> gp1, gc |-> gc1]
+             THEN \* the parent's NXDOMAIN is itself learned through p's delegation: bounded by that cut
+                  [lp |-> lp1, lc |-> None, an |-> None, ng |-> Min(now + NegTTL, lp1.exp), rep |-> <<0, 0>>, gp |-> gp1, gc |-> gc1]
              ELSE LET own == now + Max(cfg.childTTL, Floor)
                       \* the child's self-referral must NOT re-anchor the lease (validReferral)
                       lc2 == IF SelfRefReanchors /\ cfg.child # "long"
